@@ -5,79 +5,89 @@
   (`has_state_variable` / `state_variable` with the `{ns}name` fallback, per-variable try/except, one
   `on_event` call) and `UpnpStateVariable.upnp_value` setter (coerce, validate, `UPNP_VALUE_ERROR`).
 
-  Data types are modelled for the coercer kinds `int`, `str` and `s.lower() in [...]` (taken from the
-  generated `typeIn` table); the strict-mode schema is the python type check (always passes for the
-  coerced value), `vol.In(allowed)` when an allowed list is declared and `vol.Range(min, max)` (inclusive)
-  when a range is declared — ranges are modelled for integer variables, allowed lists for every kind.
+  All 26 UPnP data types: conversion, the strict-mode schema and the value cell are C08's model
+  (`C08.coercePython`, `C08.mkSchema`, `C08.Schema.check`, `C08.Cell`) over the generated type table
+  `Gen.C08Types.table`; floats through the `FloatOracle` (as in C08).
   The XML text ↔ tree step (`DET.fromstring`, `rstrip`) is not modelled: a body is the list of the root's
   children, each marked as `e:property` or not, with its child elements (namespace, local name, text).
   Import-free apart from model/generated files (linked into the driver).
 -/
 import Upnp.Model.PyDict
 import Upnp.Model.C09Gena
+import Upnp.Model.C10Base
+import Upnp.Gen.C08Types
 import Upnp.Gen.C10Notify
 namespace Upnp.C10
 open Upnp PyDict Upnp.C09
 
-/-! ### values and variables -/
+/-! ### values and variables
 
-inductive Val
-  | vint (i : Int) | vbool (b : Bool) | vstr (s : Str)
-deriving DecidableEq, Repr
+  Conversion and validation ARE C08's: `C08.coercePython` with the row of the generated type table
+  (`Gen.C08Types.table`, all 26 data types) and the strict-mode schema `C08.mkSchema` / `C08.Schema.check`
+  built from the declaration; the value cell is `C08.Cell` (`UPNP_VALUE_ERROR` = `.err`). -/
 
-/-- `UpnpStateVariable._value` -/
-inductive Stored
-  | unset | val (v : Val) | convErr
-deriving DecidableEq, Repr
+abbrev Val := Upnp.C08.Val Fl
+abbrev Stored := Upnp.C08.Cell Fl
 
-/-- `UpnpStateVariable.value`: invalid values read as None -/
-def Stored.read : Stored → Option Val
-  | .val v => some v
-  | _ => none
+def Stored.read (c : Stored) : Val := Upnp.C08.Cell.read c
+
+/-- the table the conversions are read from -/
+def table : Upnp.C08.Table := Gen.C08Types.table
 
 structure Decl where
   name : Str
   dtype : Str
-  min : Option Int := none      -- allowedValueRange/minimum (integer variables)
-  max : Option Int := none
-  allowed : List Str := []      -- allowedValueList (text, coerced like a value)
+  range : Option (Option Str × Option Str) := none   -- allowedValueRange: minimum / maximum texts
+  allowed : Option (List Str) := none                -- allowedValueList texts
 deriving DecidableEq, Repr
 
+def Decl.c08 (d : Decl) : Upnp.C08.Decl := { range := d.range, allowed := d.allowed, default := none }
+
 structure VarSt where
-  stored : Stored := .unset
+  stored : Stored := .val .none
   updated : Option Nat := none   -- `_updated_at` (virtual clock tick)
 deriving DecidableEq, Repr
 
+section
+variable [FloatOracle]
+
 structure Var where
   decl : Decl
+  row : Upnp.C08.TypeRow
+  sc : Upnp.C08.Schema Fl
   st : VarSt := {}
-deriving DecidableEq, Repr
+deriving Repr
 
-def asciiLower (s : Str) : Str := s.map fun c => if 'A' ≤ c ∧ c ≤ 'Z' then Char.ofNat (c.toNat + 32) else c
+/-- the variable the factory builds for a declaration (strict mode); `none` = the factory raises -/
+def mkVar (d : Decl) : Option Var :=
+  match table.row? d.dtype with
+  | none => none
+  | some row =>
+    match Upnp.C08.mkSchema FloatOracle.ops table row true d.c08 with
+    | .ok sc => some { decl := d, row := row, sc := sc }
+    | .error _ => none
 
-def inKindOf (dtype : Str) : InKind := (get? Gen.C10Notify.typeIn dtype).getD .other
+/-- the `"in"` coercer of the variable's data type -/
+def convert (v : Var) (text : Str) : Except Upnp.C08.Err Val :=
+  Upnp.C08.coercePython FloatOracle.ops table v.row text
 
-/-- the `"in"` coercer; `none` = ValueError -/
-def convert : InKind → Str → Option Val
-  | .int, s => (pyInt? s).map .vint
-  | .str, s => some (.vstr s)
-  | .lowerIn l, s => some (.vbool (l.contains (asciiLower s)))
-  | .other, _ => none
+/-- the strict-mode schema on a coerced value -/
+def validate (v : Var) (x : Val) : Bool := v.sc.check FloatOracle.ops x
 
-/-- the strict-mode schema (`vol.All(type, In(allowed)?, Range(min,max)?)`) on a coerced value -/
-def validate (d : Decl) (v : Val) : Bool :=
-  (d.allowed.isEmpty || (d.allowed.filterMap (convert (inKindOf d.dtype))).contains v)
-  && (match v with
-      | .vint i => (match d.min with | some m => decide (m ≤ i) | none => true)
-                   && (match d.max with | some m => decide (i ≤ m) | none => true)
-      | _ => true)
+/-- an exception other than ValueError / UpnpValueError escaping `state_var.upnp_value = text` -/
+def raisesVar (v : Var) (text : Str) : Option Upnp.C08.Err :=
+  match convert v text with
+  | .error e => if e = .valueError then none else some e
+  | .ok _ => none
 
-/-- `state_var.upnp_value = text`; the Bool says "no UpnpValueError" (the variable is listed as changed) -/
+/-- `state_var.upnp_value = text`; the Bool says "no UpnpValueError" (the variable is listed as changed).
+    (An escaping exception is handled by the caller through `raisesVar`; here it leaves the variable alone.) -/
 def setUpnpValue (v : Var) (text : Str) (tick : Nat) : Var × Bool :=
-  match convert (inKindOf v.decl.dtype) text with
-  | none => ({ v with st := { v.st with stored := .convErr } }, true)
-  | some x =>
-    if validate v.decl x then ({ v with st := { stored := .val x, updated := some tick } }, true)
+  match convert v text with
+  | .error e =>
+    if e = .valueError then ({ v with st := { v.st with stored := .err } }, true) else (v, false)
+  | .ok x =>
+    if validate v x then ({ v with st := { stored := .val x, updated := some tick } }, true)
     else (v, false)
 
 /-! ### services -/
@@ -85,7 +95,7 @@ def setUpnpValue (v : Var) (text : Str) (tick : Nat) : Var × Bool :=
 structure Svc where
   vars : List Var                 -- `state_variables` (dict order = declaration order, names distinct)
   events : List (List Str) := []  -- `on_event` invocations: the names of the variables listed
-deriving DecidableEq, Repr
+deriving Repr
 
 def Svc.names (s : Svc) : List Str := s.vars.map (·.decl.name)
 
@@ -116,10 +126,33 @@ def applyChanges (names : List Str) (tick : Nat) : List (Str × Str) → List Va
       let u := updateVar vars n text tick
       applyChanges names tick r u.1 (if u.2 then ch ++ [n] else ch)
 
-/-- `notify_changed_state_variables(changes)` with `on_event` set -/
+/-- `notify_changed_state_variables(changes)` with `on_event` set (no exception escaping) -/
 def notifyChanged (s : Svc) (changes : PyDict Str Str) (tick : Nat) : Svc :=
   let r := applyChanges s.names tick changes s.vars []
   { vars := r.1, events := s.events ++ [r.2] }
+
+def findVar (vars : List Var) (name : Str) : Option Var := vars.find? fun v => v.decl.name = name
+
+/-- the loop as coded: an exception other than UpnpValueError leaves the loop (and the method) at once —
+    the variables set so far stay set, nothing else is applied, `on_event` is not called -/
+def applyChangesE (names : List Str) (tick : Nat) :
+    List (Str × Str) → List Var → List Str → List Var × List Str × Option Upnp.C08.Err
+  | [], vars, ch => (vars, ch, none)
+  | (tag, text) :: r, vars, ch =>
+    match resolveName names tag with
+    | none => applyChangesE names tick r vars ch
+    | some n =>
+      match (findVar vars n).bind fun v => raisesVar v text with
+      | some e => (vars, ch, some e)
+      | none =>
+        let u := updateVar vars n text tick
+        applyChangesE names tick r u.1 (if u.2 then ch ++ [n] else ch)
+
+def notifyChangedE (s : Svc) (changes : PyDict Str Str) (tick : Nat) : Svc × Option Upnp.C08.Err :=
+  let r := applyChangesE s.names tick changes s.vars []
+  match r.2.2 with
+  | some e => ({ s with vars := r.1 }, some e)
+  | none => ({ vars := r.1, events := s.events ++ [r.2.1] }, none)
 
 /-! ### NOTIFY requests -/
 
@@ -160,6 +193,7 @@ def changesOf (b : Body) : PyDict Str Str :=
 structure Notify where
   hdrs : NHeaders
   body : Body
+  malformed : Bool := false     -- the body text is not well-formed XML (`body` is then irrelevant)
 deriving DecidableEq, Repr
 
 /-- evaluation of one header test; `none` = KeyError (`headers[k]` on a missing header) -/
@@ -177,6 +211,8 @@ def evalOr (h : NHeaders) : List NCond → Option Bool
 inductive NRes
   | status (n : Nat)
   | keyError
+  | raised (e : Upnp.C08.Err)    -- an exception of the conversion layer escaping `handle_notify`
+  | parseError                   -- the body is not XML (`DET.fromstring` raises)
 deriving DecidableEq, Repr
 
 /-- the leading `if …: return status` statements: `some res` = returned / raised, `none` = fell through -/
@@ -212,7 +248,13 @@ def handleNotify (h : Handler) (n : Notify) (tick : Nat) : Handler × NRes :=
         ({ h with backlog := set h.backlog sid ((get? h.backlog sid).getD [] ++ [n]) },
          .status Gen.C10Notify.backlogStatus)
       | some i =>
-        ({ h with svcs := modifyAt h.svcs i fun s => notifyChanged s (changesOf n.body) tick },
-         .status Gen.C10Notify.doneStatus)
+        if n.malformed then (h, .parseError) else
+        match (h.svcs[i]?).bind fun s => (notifyChangedE s (changesOf n.body) tick).2 with
+        | some e =>
+          ({ h with svcs := modifyAt h.svcs i fun s => (notifyChangedE s (changesOf n.body) tick).1 }, .raised e)
+        | none =>
+          ({ h with svcs := modifyAt h.svcs i fun s => notifyChanged s (changesOf n.body) tick },
+           .status Gen.C10Notify.doneStatus)
 
+end
 end Upnp.C10
